@@ -805,10 +805,15 @@ def carry_literal(t, boundary, delta, zone, frac=None, h24=False):
 def gen_carry(draw, t, boundary=None):
     """values within 14 h of a day / month / year boundary combined with zone offsets of both signs: time-zone normalisation
     (and the +-14:00 window of the zoned/unzoned comparison) has to carry or borrow across the boundary"""
-    b = boundary or draw(st.sampled_from(CARRY_BOUNDARIES))
-    delta = draw(st.sampled_from(CARRY_DELTAS))
-    if t not in ('dateTime', 'time'): delta = draw(st.sampled_from([-1440, -1, 0, 0, 0, 1439, 1440]))       # the day before / the boundary day / the day after
+    b = boundary or draw(st.sampled_from(CARRY_BOUNDARIES + [x for x in CARRY_BOUNDARIES if x[1:] == (1, 1)] * 2))      # year starts weigh three times
     z = draw(st.sampled_from(CARRY_ZONES))
+    if z and draw(st.booleans()):
+        # force the crossing: zone < 0 -> local time up to |zone| before the boundary (UTC lands on/after it: carry forward);
+        # zone > 0 -> local time less than zone after the boundary (UTC lands before it: borrow backward)
+        delta = draw(st.sampled_from([-1, z // 2, z + 1, z])) if z < 0 else draw(st.sampled_from([0, z // 2, z - 1]))
+    else:
+        delta = draw(st.sampled_from(CARRY_DELTAS))
+    if t not in ('dateTime', 'time'): delta = draw(st.sampled_from([-1440, -1, 0, 0, 0, 1439, 1440]))       # the day before / the boundary day / the day after
     frac = draw(st.sampled_from([None, None, None, '5', '999'])) if t in ('dateTime', 'time') else None
     lit = carry_literal(t, b, delta, z, frac, draw(st.integers(0, 5)) == 0)
     return lit, ['bd:zone-carry', 'bd:zone' if z else 'bd:zone-none']
